@@ -19,7 +19,7 @@ TECHNIQUE = (
 )
 LEVEL_TEXT = (
     "All populations of 0..N devices (N=2 quick, 3 thorough) over address in {target, A, B} x programming mode x connection-oriented behaviour in "
-    "{answer, refuse, silent}, each with bus latencies {same instant, 20 ms staggered, spread over 0.5..2.5 s}; serial-number read/write on all populations of <= N devices "
+    "{answer, refuse, silent} (up to 2 devices also over the faulty variants T_NAK, wrong T_ACK number, other service, ack only, late answer, wrong-numbered answer), each with bus latencies {same instant, 20 ms staggered, spread over 0.5..2.5 s}; serial-number read/write on all populations of <= N devices "
     "over serial in {wanted, other} x chatty x address; dmp_authorize2_r_co on all 256 level pairs. Bounded exhaustive enumeration, hence fault_enumeration."
 )
 LEVEL_NOTE = (
@@ -27,9 +27,9 @@ LEVEL_NOTE = (
     "connection-oriented devices acknowledge and answer A_DeviceDescriptor_Read, refusing devices answer every connection-oriented frame with "
     "T_Disconnect), codecs, the virtual loop. Judged: an A_IndividualAddress_Write broadcast is seen only when exactly one device is in programming mode "
     "and no other device holds the address; every A_Restart goes to the target address; serial-number read returns the address of the device with that "
-    "serial or None, serial-number write succeeds only if that device answered with the new address; dmp_authorize2_r_co == min(free, key). A holder that "
-    "never answers connection-oriented frames is judged under its own mechanism (`...unresponsive-device...`): it is indistinguishable from a free "
-    "address for any client. Not judged (recorded): whether the procedure reports success, exceptions raised in the receive path (C43)."
+    "serial or None, serial-number write succeeds only if that device answered with the new address; dmp_authorize2_r_co == min(free, key). A holder whose "
+    "A_DeviceDescriptor_Read probe ends in the timeout (silent, acknowledges only, answers late or with a wrong number) is judged under its own "
+    "mechanism (`...unresponsive-device...`): the KNX address check reads that timeout as a free address. Not judged (recorded): a write that repeats the address the programmed device already shares with another device (pre-existing conflict, nobody's address changes), whether the procedure reports success, exceptions raised in the receive path (C43)."
 )
 SHARDS = {"quick": 1, "thorough": 16}
 TIMEOUT = {"quick": 300, "thorough": 3000}
@@ -37,6 +37,10 @@ TIMEOUT = {"quick": 300, "thorough": 3000}
 TARGET = "1.1.10"
 ADDRS = (TARGET, "1.1.20", "1.1.30")
 CO = ("answer", "refuse", "silent")
+#: faulty connection-oriented devices (vlib.peers_mgmt.SimBus._p2p): they are present and prove it on the transport layer
+CO_FAULTY = ("nak", "ack_wrong_number", "other_service", "ack_only", "late", "wrong_number_answer")
+#: holders whose address probe ends in the procedure's timeout (no A_DeviceDescriptor_Response / T_Disconnect in time)
+PROBE_TIMES_OUT = ("silent", "ack_only", "late", "wrong_number_answer")
 LATENCIES = (0.0, 0.02, "spread")  # spread: device i answers after 0.5 + i s, inside the 3 s the procedures wait
 SERIAL = bytes.fromhex("00fa12345678")
 OTHER_SERIAL = bytes.fromhex("00fa0000beef")
@@ -94,6 +98,9 @@ def address_write_case(ctx, case):
     """One population against nm_individual_address_write."""
     devices = [SimDevice(i, a, bool(p), co, bytes([0, 0xFA, 0, 0, 0, i + 1])) for i, (a, p, co) in enumerate(case["devices"])]
     before = [d.snapshot() for d in devices]
+    for d in before:
+        if d["address"] == TARGET and not d["prog"]:
+            ctx.count(f"target_address_held_by_{d['co']}_device")
     loop = new_loop()
     out = _run(loop, lambda x: procedures.nm_individual_address_write(x, TARGET), devices, case["latency"])
     ctx.ev()
@@ -118,13 +125,22 @@ def address_write_case(ctx, case):
             how = "no" if not prog else "several"
             ctx.violation(f"address-written-with-{how}-device-in-programming-mode", _pop_witness(case, out, before=before),
                           f"A_IndividualAddress_Write({written}) was broadcast while {len(prog)} devices were in programming mode")
+        elif holders and state[prog[0]]["address"] == written:
+            # the device being programmed already had this address and shares it with the holder(s): both answer every probe
+            # together, and the write changes nobody's address - no conflict is created that was not there. Recorded.
+            ctx.count("write_repeats_address_on_preexisting_conflict")
         elif holders:
             kinds = sorted({state[i]["co"] for i in holders})
-            if kinds == ["silent"]:
+            for k in kinds:
+                ctx.count(f"write_with_holder_{k}")
+            detectable = [k for k in kinds if k not in PROBE_TIMES_OUT]
+            if not detectable:
+                # every holder lets the A_DeviceDescriptor_Read probe run into the timeout the KNX procedure reads as "free"
                 mech = "address-written-while-unresponsive-device-holds-it"
             else:
-                names = {"answer": "answering", "refuse": "refusing"}
-                mech = f"address-written-while-{'-or-'.join(names[k] for k in kinds if k != 'silent')}-device-holds-it"
+                names = {"answer": "answering", "refuse": "refusing", "nak": "T_NAK-sending", "ack_wrong_number": "wrongly-acknowledging",
+                         "other_service": "other-service-answering"}
+                mech = f"address-written-while-{'-or-'.join(names[k] for k in detectable)}-device-holds-it"
             ctx.violation(mech, _pop_witness(case, out, before=before, holders=holders),
                           f"A_IndividualAddress_Write({written}) was broadcast although device(s) {holders} ({kinds}) already use that address")
         else:
@@ -259,11 +275,18 @@ def run(ctx):
     )
     ctx.require("address_write_broadcasts", "address_write_justified", "no_address_write", "restart_to_target", "write_procedure_success",
                 "serial_read_address_ok", "serial_read_none_ok", "serial_write_verified_ok", "serial_write_failed",
-                "serial_cases_with_foreign_responses", "authorize_pairs")
+                "serial_cases_with_foreign_responses", "authorize_pairs",
+                *(f"target_address_held_by_{co}_device" for co in CO + CO_FAULTY))
     n = 0
     one = list(itertools.product(ADDRS, (0, 1), CO))
+    full = list(itertools.product(ADDRS, (0, 1), CO + CO_FAULTY))
+    pops = []
     for k in range(max_dev + 1):
-        for pop in itertools.product(one, repeat=k):
+        # up to 2 devices: all 9 behaviours; the third device (thorough) only over answer/refuse/silent
+        for pop in itertools.product(full if k <= 2 else one, repeat=k):
+            pops.append(pop)
+    if True:
+        for pop in pops:
             for lat in LATENCIES:
                 n += 1
                 if not ctx.mine(n):
@@ -294,7 +317,7 @@ def run(ctx):
         if ctx.mine(n):
             authorize_all(ctx, lat)
     ctx.exhaustive = True
-    ctx.extra["exhaustive_part"] = f"populations of 0..{max_dev} devices (18 device kinds) x 3 latencies; serial populations 0..{max_dev} (8 kinds, unique serial) x 2 latencies; 256 level pairs x 2 latencies"
+    ctx.extra["exhaustive_part"] = f"populations of 0..{max_dev} devices (54 device kinds up to 2 devices, 18 for the third) x 3 latencies; serial populations 0..{max_dev} (8 kinds, unique serial) x 2 latencies; 256 level pairs x 2 latencies"
 
 
 def replay(ctx, witness):
